@@ -66,12 +66,15 @@ pub fn random(r: &mut Rng, name: &'static str) -> ProjDef {
     let y_0 = *r.pick(&[0.0, 10000000.0, 777.25, -1200000.0]);
     let mut d = ProjDef { name, shape: String::new(), ellps, lon_0, lat_0: None, k_0, x_0, y_0, has_lon0: true, has_k0: true, has_xy: true, centre: (lon_0, 0.0), extent: (170.0, 80.0) };
     match name {
-        "merc" => {}
+        "merc" => {
+            d.extent = (170.0, 89.0);
+        }
         "webmerc" => {
             d.has_lon0 = false;
             d.has_k0 = false;
             d.has_xy = false;
             d.centre = (0.0, 0.0);
+            d.extent = (170.0, 89.0);
         }
         "tmerc" => {
             d.lat_0 = *r.pick(&[None, Some(0.0), Some(49.0), Some(-33.0)]);
@@ -135,10 +138,16 @@ pub fn random(r: &mut Rng, name: &'static str) -> ProjDef {
 
 /// tuples (lon, lat, h, t) of the domain
 pub fn points(r: &mut Rng, d: &ProjDef, n: usize) -> Vec<[f64; 4]> {
-    (0..n)
+    let mut v: Vec<[f64; 4]> = (0..n)
         .map(|_| {
             let (lon, lat) = d.point(r);
             [lon, lat, r.uniform(-100.0, 3000.0), r.uniform(1990.0, 2030.0)]
         })
-        .collect()
+        .collect();
+    if (d.name == "merc" || d.name == "webmerc") && n >= 4 {
+        // the cylindrical projections reach (almost) to the poles
+        v[0][1] = r.uniform(85.1f64, 89.5).to_radians();
+        v[1][1] = -r.uniform(85.1f64, 89.5).to_radians();
+    }
+    v
 }
